@@ -181,7 +181,23 @@ fn scenario(p: &Params, dir: &std::path::Path) -> Outcome {
     };
     let mut r = case.start(fsm);
     let pid = r.session.session_id;
-    let stable = |r: &mut Running, n: u64| rec::wait_idle_stable(r.tracer, n, Duration::from_millis(15), Duration::from_secs(10)) == Wait::Idle;
+    let stable = |r: &mut Running, n: u64| rec::wait_idle_stable(r.tracer, n, Duration::from_millis(15), Duration::from_secs(60)) == Wait::Idle;
+    // watchdogs are generous (they return as soon as the condition holds); when one fires, the
+    // verdicts that need a complete history are only drawn where the log itself proves completeness
+    let mut done_wait_timed_out = false;
+    let mut children_ended_at_timeout = 0usize;
+    let mut incomplete: Option<String> = None;
+    let ended_children = |pid: u32| -> usize {
+        let l = rec::snapshot_log();
+        let tids: Vec<u64> = l
+            .iter()
+            .filter_map(|e| match &e.ev {
+                Ev::Mark { tag, parent_session, args, .. } if tag == "hello" && *parent_session == Some(pid) && s_arg(args, 0) != "never" => Some(e.tid),
+                _ => None,
+            })
+            .collect();
+        tids.iter().filter(|t| l.iter().any(|e| e.tid == **t && matches!(&e.ev, Ev::MOut(m) if m == "interpret"))).count()
+    };
     stable(&mut r, 0);
     // state entered and exited within one macrostep: its invoke must not start
     r.send("blink");
@@ -192,7 +208,7 @@ fn scenario(p: &Params, dir: &std::path::Path) -> Outcome {
         r.send(if round == 0 { "enter" } else { "back" });
         entries += 1;
         // children say hello
-        let ok = wait_until(|| rec::snapshot_log().iter().filter(|e| matches!(&e.ev, Ev::Mark { tag, parent_session, args, .. } if tag == "hello" && *parent_session == Some(pid) && s_arg(args, 0) != "never")).count() >= entries * n_inv, Duration::from_secs(10));
+        let ok = wait_until(|| rec::snapshot_log().iter().filter(|e| matches!(&e.ev, Ev::Mark { tag, parent_session, args, .. } if tag == "hello" && *parent_session == Some(pid) && s_arg(args, 0) != "never")).count() >= entries * n_inv, Duration::from_secs(90));
         if !ok {
             out.violations.push(("invoke-not-started".into(), format!("entry #{} of the invoking state: {} invokes did not all start", entries, n_inv)));
             break;
@@ -206,26 +222,39 @@ fn scenario(p: &Params, dir: &std::path::Path) -> Outcome {
         match p.leave_after {
             Some(n) => {
                 let target = out.child_events_processed + n;
-                wait_until(|| count_marks("pc", pid) >= target, Duration::from_secs(5));
+                if !wait_until(|| count_marks("pc", pid) >= target, Duration::from_secs(90)) {
+                    incomplete = Some("child events did not arrive within the watchdog".into());
+                }
             }
             None => {
                 let want = entries * n_inv;
-                wait_until(|| count_marks("pdone", pid) >= want, Duration::from_secs(5));
+                if !wait_until(|| count_marks("pdone", pid) >= want, Duration::from_secs(90)) {
+                    done_wait_timed_out = true;
+                    // children that had ended by now had sent their done.invoke before "leave" is sent below
+                    children_ended_at_timeout = ended_children(pid);
+                }
             }
         }
         // let the host events through
         let ph_want = entries * p.host_events;
-        wait_until(|| count_marks("ph", pid) >= ph_want, Duration::from_secs(5));
+        if !wait_until(|| count_marks("ph", pid) >= ph_want, Duration::from_secs(90)) {
+            incomplete = Some("host events were not processed within the watchdog".into());
+        }
         out.child_events_processed = count_marks("pc", pid);
         r.send("leave");
-        wait_until(|| count_marks("inv-exited", pid) >= entries, Duration::from_secs(5));
+        if !wait_until(|| count_marks("inv-exited", pid) >= entries, Duration::from_secs(90)) {
+            incomplete = Some("the invoking state was not left within the watchdog".into());
+        }
         // events a cancelled child still has in flight must be dropped
         std::thread::sleep(Duration::from_millis(20));
     }
     r.finish();
     // cancelled children need a moment to process their cancel event (bounded, generous)
-    wait_until(|| rec::session_threads().iter().all(|(_, fin)| *fin), Duration::from_secs(10));
+    let all_ended = wait_until(|| rec::session_threads().iter().all(|(_, fin)| *fin), Duration::from_secs(90));
     let log: Vec<Entry> = rec::take_log();
+    if let Some(i) = &incomplete {
+        out.inconclusive = Some(i.clone());
+    }
 
     // ---- checker ----
     // child sessions: session id -> (tag, thread)
@@ -447,7 +476,10 @@ fn scenario(p: &Params, dir: &std::path::Path) -> Outcome {
     // (5) expected done.invoke when the child finished and the parent waited
     if !p.stream && p.leave_after.is_none() {
         let total: usize = done_total;
-        if total != entries * n_inv {
+        if done_wait_timed_out && children_ended_at_timeout < entries * n_inv {
+            // the children had not ended when the watchdog fired and were cancelled afterwards
+            out.inconclusive = Some("children did not finish within the watchdog".into());
+        } else if total != entries * n_inv {
             out.violations.push(("done-invoke-missing".into(), format!("{} invokes finished, {} done.invoke events were processed", entries * n_inv, total)));
         }
     }
@@ -458,11 +490,13 @@ fn scenario(p: &Params, dir: &std::path::Path) -> Outcome {
         }
         let ended = log.iter().any(|e| e.tid == *tid && matches!(&e.ev, Ev::MOut(m) if m == "interpret"));
         if !ended {
+            // 90 s without the cancel event being processed (the watchdog above fired)
+            let _ = all_ended;
             out.violations.push(("child-not-cancelled".into(), format!("child session {} ({}) was still running after the parent had exited the invoking state and ended", sid, tag)));
         }
     }
     // (7) autoforward: every external event the parent processed while the child ran reaches the child once
-    if p.autoforward && p.host_events > 0 {
+    if p.autoforward && p.host_events > 0 && all_ended && incomplete.is_none() {
         let fwd: Vec<(u32, String, V)> = log
             .iter()
             .filter_map(|e| match &e.ev {
